@@ -830,7 +830,9 @@ func (ev *SpecEnv) callExpr(x *ast.CallExpr) (Val, types.Type) {
 			rs = BoolSort
 		}
 		ev.ex.useUFun(uf)
-		return Scalar{App(name, rs, args...)}, nil
+		t := App(name, rs, args...)
+		ev.ex.refineUFun(name, t, args)
+		return Scalar{t}, nil
 	}
 	// user-defined spec functions
 	if sf, ok := ev.ex.P.CS.SpecFuns[name]; ok {
